@@ -220,7 +220,10 @@ func runC11(c C11Case) c11result {
 		seen = nil
 		wmu.Unlock()
 	}
-	at := b.Dial("attacker")
+	// "halfclose": the client ends its sending direction right behind the first packet and goes
+	// on reading (the bytes and the end of the stream can reach the broker in one Read call)
+	ended := c.Then == "close" || c.Then == "halfclose"
+	at := b.DialOpt("attacker", c.Then == "halfclose")
 	at.AutoAck = true
 	out := append([]byte(nil), c.First...)
 	if c.Then == "packets" {
@@ -237,11 +240,19 @@ func runC11(c C11Case) c11result {
 	if prev > 0 {
 		res.Classes = append(res.Classes, "first-packet-in-several-writes")
 	}
-	at.SendAsync(out[prev:])
+	if c.Then != "halfclose" {
+		at.SendAsync(out[prev:])
+	} else if len(out[prev:]) > 0 {
+		at.SendRawTimeout(out[prev:], 3*time.Second) // returns when the transport has taken the bytes
+	}
 	if c.Then == "close" {
 		// give the handler a moment to take what it wants, then cut
 		at.Served(20 * time.Millisecond)
 		at.Close()
+	}
+	if c.Then == "halfclose" {
+		at.HalfClose()
+		res.Classes = append(res.Classes, "first-packet-then-end-of-stream-in-one-read")
 	}
 	// what did the broker answer?
 	var connack *codec.Packet
@@ -252,7 +263,7 @@ func runC11(c C11Case) c11result {
 			res.Fail = fmt.Sprintf("broker sent %s before any CONNACK (%s; %s)", rx[0].P, c.Origin, cls.why)
 			return res
 		}
-	} else if werr == wire.ErrTimeout && c.Then != "close" {
+	} else if werr == wire.ErrTimeout && !ended {
 		res.Fail = fmt.Sprintf("no CONNACK and the connection still open 3 s after the first packet (%s; %s)", c.Origin, cls.why)
 		return res
 	}
@@ -266,7 +277,7 @@ func runC11(c C11Case) c11result {
 	}
 	switch cls.kind {
 	case "accept":
-		if !accepted && c.Then != "close" {
+		if !accepted && !ended {
 			res.Fail = fmt.Sprintf("acceptable CONNECT (%s) was not accepted: CONNACK %v", c.Origin, connack)
 			return res
 		}
@@ -285,7 +296,7 @@ func runC11(c C11Case) c11result {
 				return res
 			}
 		}
-		if connack == nil && len(cls.codes) > 0 && c.Then != "close" {
+		if connack == nil && len(cls.codes) > 0 && !ended {
 			plain := false
 			for _, k := range cls.codes {
 				plain = plain || k == 0xff
@@ -311,13 +322,13 @@ func runC11(c C11Case) c11result {
 		}
 		return res
 	}
-	if accepted && c.Then != "close" {
+	if accepted && !ended {
 		// the connection works
 		if _, err := at.Barrier(); err != nil {
 			res.Fail = fmt.Sprintf("accepted connection (%s) does not answer PINGREQ: %v", c.Origin, err)
 			return res
 		}
-	} else if c.Then != "close" {
+	} else if !ended {
 		if !at.WaitClosed(3 * time.Second) {
 			res.Fail = fmt.Sprintf("connection not closed by the broker after refusing the first packet (%s; %s; CONNACK %v)", c.Origin, cls.why, connack)
 			return res
@@ -525,6 +536,12 @@ func enumC11(emit func(C11Case)) {
 	}
 	for _, cut := range []int{1, 9, len(good) - 1} {
 		emit(C11Case{Auth: "", First: good[:cut], Origin: fmt.Sprintf("CONNECT truncated after %d bytes, then silence", cut), Then: "silence"})
+	}
+	// the client ends its sending direction behind a truncated CONNECT (cut at every offset; the
+	// CONNECT has CleanSession=0, will, user name and password so that a tail of zeros would decode)
+	full := codec.Encode(connectSpec{name: "MQTT", level: 4, flags: 4 | 128 | 64, id: "halfclosed", user: "user", pass: "pass"}.packet())
+	for cut := 0; cut <= len(full); cut++ {
+		emit(C11Case{Auth: "", First: full[:cut], Origin: fmt.Sprintf("CONNECT (%d bytes) truncated after %d bytes, then the end of the stream while the client goes on reading", len(full), cut), Then: "halfclose"})
 	}
 	emit(C11Case{Auth: "", First: []byte{0x10, 0xff, 0xff, 0xff, 0xff, 0x01}, Origin: "CONNECT with a 5-byte remaining length", Then: "close"})
 }
